@@ -34,6 +34,7 @@ def scan_function(fn: ast.AST, member_name: str, ordering_scope: bool, helpers=(
     out += _int_only_value_tests(fn)
     out += _aliased_accumulators(fn)
     out += _zero_replaced_quantities(fn)
+    out += _int_prealloc_stores(fn, helpers)
     for n in ast.walk(fn):
         if isinstance(n, ast.BinOp) and isinstance(n.op, ast.FloorDiv):
             out.append(("floor-division", u(n)[:70], "weighted counts and bases are fractional: integer division truncates them"))
@@ -62,6 +63,47 @@ def scan_function(fn: ast.AST, member_name: str, ordering_scope: bool, helpers=(
                 out.append(("unordered", u(n.iter)[:70], "iteration order of a set is arbitrary: the order built from it is not the specified one"))
             if isinstance(n, ast.Call) and u(n.func) in ("list", "tuple", "np.array", "np.fromiter") and n.args and isinstance(n.args[0], ast.Call) and u(n.args[0].func) in ("set", "frozenset"):
                 out.append(("unordered", u(n)[:70], "a set turned into a sequence has arbitrary order"))
+    return out
+
+
+def _is_int_alloc(e: ast.AST, helpers=()) -> bool:
+    """An array that can hold INTEGERS only: np.full(shape, 0) / np.full(shape, 1) without dtype, np.zeros / ones / empty with an
+    integer dtype - directly or handed back by a helper of the class."""
+    if not isinstance(e, ast.Call):
+        return False
+    f = u(e.func)
+    dtype = next((k.value for k in e.keywords if k.arg == "dtype"), None)
+    if f == "np.full" and len(e.args) >= 2 and dtype is None and len(e.args) < 3:
+        v = e.args[1]
+        return isinstance(v, ast.Constant) and isinstance(v.value, int) and not isinstance(v.value, bool)
+    if f in ("np.zeros", "np.ones", "np.empty", "np.full"):
+        d = dtype if dtype is not None else (e.args[1] if f != "np.full" and len(e.args) >= 2 else (e.args[2] if f == "np.full" and len(e.args) >= 3 else None))
+        return d is not None and u(d) in _INT_TYPES
+    if isinstance(e.func, ast.Attribute) and isinstance(e.func.value, ast.Name) and e.func.value.id in ("self", "cls"):
+        for h in helpers:
+            if getattr(h, "name", None) == e.func.attr:
+                rets = [r.value for r in ast.walk(h) if isinstance(r, ast.Return) and r.value is not None]
+                return bool(rets) and all(_is_int_alloc(r) for r in rets)
+    return False
+
+
+def _int_prealloc_stores(fn: ast.AST, helpers=()) -> List[Tuple[str, str, str]]:
+    """`block = np.full(shape, 0)` ... `block[:, i] = <computed vector>`: the template holds int64, the weighted (fractional)
+    values written into it are truncated toward zero without a word."""
+    allocs = {}
+    for n in ast.walk(fn):
+        if isinstance(n, ast.Assign) and len(n.targets) == 1 and isinstance(n.targets[0], ast.Name) and _is_int_alloc(n.value, helpers):
+            allocs[n.targets[0].id] = n
+    out = []
+    for n in ast.walk(fn):
+        if isinstance(n, (ast.Assign, ast.AugAssign)):
+            targets = n.targets if isinstance(n, ast.Assign) else [n.target]
+            for t in targets:
+                if isinstance(t, ast.Subscript) and isinstance(t.value, ast.Name) and t.value.id in allocs:
+                    v = n.value
+                    if isinstance(v, ast.Constant) and isinstance(v.value, int):
+                        continue
+                    out.append(("int-prealloc", f"{u(allocs[t.value.id])[:40]} ... {u(n)[:40]}", "an integer array is filled with computed (weighted, fractional) values: they are truncated toward zero"))
     return out
 
 
@@ -282,6 +324,8 @@ def columns_scale_median_margin(self, c):
     return np.nan_to_num(c).astype("int64"), sorted(set(c)), c is None
 
 def pad(self, elements):
+    block = np.full((2, 3), 0)
+    block[:, 0] = self._subtotal_column(elements)
     share = self._counts / (self._table_base or 1.0)
     a = b = [0] * len(elements)
     a[0], c = 1, 2
